@@ -117,7 +117,13 @@ def training_case(rnd, layers, in_dims, out_dims, iters, lr, cost="mse", batches
             steps.append(leaf(h + 30, b + in_dims, small_vals(rnd, prod(b + in_dims))))
             steps.append({"op": "m_forward", "args": [h + 30], "res": h + 31})
             steps.append({"op": "drop", "args": [h + 31]})
+            twice = True
+        else:
+            twice = False
         steps.append({"op": "m_forward", "args": [x], "res": out})
+        if twice:
+            # the model moved on to another forward: the first input is released (no update needed for that)
+            steps.append({"op": "into_vec", "args": [h + 30]})
         if prev is not None and ownership:
             # the model moved on: nothing of the previous iteration may still hold its input or old parameters
             steps.append({"op": "into_vec", "args": [prev[0]]})
@@ -157,6 +163,30 @@ def c14_cases(tier, seed):
         freeze = (rnd.choice(params), rnd.choice([0, 1])) if rnd.random() < 0.4 else None
         cases.append(training_case(rnd, layers, [sizes[0]], [sizes[-1]], rnd.choice([1, 2, 3]), rnd.choice([F(1, 2), 1, F(1, 4)]),
                                    batches=batches, rebuild=rnd.random() < 0.25, freeze=freeze, twists=twists))
+    # inference loops (forward only), models whose parameters are all frozen, and the empty model: the output is
+    # untracked, nothing receives a gradient, inputs are released as soon as the model moves on
+    for _ in range(40 if tier == "thorough" else 10):
+        nin, nout = rnd.choice([1, 2]), rnd.choice([1, 2])
+        kind = rnd.choice(["inference", "frozen", "empty"])
+        layers = [] if kind == "empty" else [dense_new(1, nin, nout, rnd.choice(["none", "relu"]), [100, 101], rot=rnd.randrange(12))]
+        steps = [RESET] + layers + [{"op": "model_new", "layers": [l["layer"] for l in layers], "lr": sc(F(1, 2)), "cost": "mse"}]
+        if kind == "frozen":
+            steps += [{"op": "stop", "args": [100]}, {"op": "stop", "args": [101]}]
+        h = 200
+        for it in range(rnd.choice([2, 3, 5])):
+            b = rnd.choice([[], [2]])
+            steps.append(leaf(h, b + [nin], small_vals(rnd, prod(b + [nin]))))
+            steps.append({"op": "m_forward", "args": [h], "res": h + 1})
+            if it > 0:
+                steps.append({"op": "drop", "args": [h - 9]})
+                steps.append({"op": "into_vec", "args": [h - 10]})
+            if kind != "inference" and prod(b + [nin if kind == "empty" else nout]) in (1, 2, 4):
+                steps.append(leaf(h + 2, b + [nin if kind == "empty" else nout], small_vals(rnd, prod(b + [nin if kind == "empty" else nout]))))
+                steps.append({"op": "m_backward", "args": [h + 2]})
+                steps.append({"op": "m_update"})
+                steps.append({"op": "grad", "args": [h + 1], "res": h + 3})
+            h += 10
+        cases.append(steps)
     # conv + dense stack
     for _ in range(60 if tier == "thorough" else 12):
         cnt, fr, fc = rnd.choice([1, 2]), rnd.choice([1, 2]), rnd.choice([1, 2])
@@ -211,6 +241,12 @@ def c15_cases(tier, seed):
                      {"op": "cost", "kind": "mse", "args": [1, 2], "res": 3}, {"op": "sum_all", "args": [3]}]
             if any(trk):
                 steps.append(backward(3))
+            cases.append(steps)
+    # targets with fewer dimensions than the output (a vector against a one-row batch)
+    for n in (1, 2, 4):
+        for trk in ((True, False), (True, True)):
+            steps = [RESET, leaf(1, [1, n], small_vals(rnd, n), trk=trk[0]), leaf(2, [n], small_vals(rnd, n), trk=trk[1]),
+                     {"op": "cost", "kind": "mse", "args": [1, 2], "res": 3}, {"op": "sum_all", "args": [3]}, backward(3)]
             cases.append(steps)
     # model forward = composition of its layers in order; backward value
     for _ in range(200 if tier == "thorough" else 40):
